@@ -97,6 +97,14 @@ let run (toks : string list) : string =
         m := r.M.r_msg;
         if op.[0] <> 'K' then outs := !outs @ [hex_of_bytes r.M.r_out]) (split_on ',' ops);
       if !outs = [] then "-" else String.concat "," !outs
+  | "smime" :: spec :: sb :: sigder :: sink :: _ ->
+      (* S/MIME render: the signature bytes come from the implementation (CMS oracle) *)
+      let (m, date, msgid, rb) = parse_msg spec in
+      let sg = bytes_of_hex sigder in
+      let r = M.write_to_signed (fun _ -> sg) date msgid rb (bytes_of_hex sb) m (parse_sink sink) in
+      let cls = if r.M.s_panic then "panic" else if r.M.s_err then "err" else "ok" in
+      let dig = match r.M.s_input with Some inp -> hex_of_bytes (M.sha256 inp) | None -> "noinput" in
+      Printf.sprintf "%s %d %s %s" cls (int_of_nat r.M.s_n) (hex_of_bytes r.M.s_out) dig
   | ["wordenc"; _; s; e] -> hex_of_bytes (M.word_encode (n_of_int (if e = "b" then 98 else 113)) (bytes_of_hex s))
   | ["b64"; chunks] | ["b64f"; chunks] ->
       (match M.b64_body (List.concat (byteslist_of chunks)) with
